@@ -153,6 +153,37 @@ def gen_cases(ck):
                   ["a", 0, sg.wire(fr[1:]).hex()]] + sev
             add(sg.with_polls(ev, rng.getrandbits(len(ev))), [0, 1], "flag_combinations",
                 {"kind": kind, "oneway": o, "more": m, "upgrade": u})
+    # (g) suspension points: Service::handle of a call stays pending for k polls, or the write of its reply
+    #     does, and MEANWHILE a new client connects / another connection's call arrives / an item of an open
+    #     reply stream becomes ready.  The call must still be answered exactly once, in order, and nothing of
+    #     the others may be lost (sequential reference only: the model assumes immediate completion)
+    for k in (1, 2, 3):
+        for what in ("handle", "write", "both"):
+            for meanwhile in ("connect", "call", "item", "all"):
+                for variant in range(1 if quick else 4):
+                    tags = sg.Tags()
+                    t1 = tags.next()
+                    fr0 = [sg.call(rng.choice(["Echo", "Fail", "Count"]), 0, t1, v=1),
+                           sg.call("Count", 0, tags.next()), sg.call("Echo", 0, tags.next(), v=2, oneway=(variant == 1))]
+                    fr1 = [sg.call("Sub", 1, tags.next(), more=True), sg.call("Echo", 1, tags.next(), v=3)]
+                    fr2 = [sg.call("Echo", 2, tags.next(), v=4), sg.call("Count", 2, tags.next())]
+                    fr3 = [sg.call("Say", 3, tags.next(), s="late"), sg.call("Echo", 3, tags.next(), v=5)]
+                    ev = [["n", 0], ["n", 1], ["n", 2], ["a", 1, sg.wire(fr1).hex()], ["p"]]
+                    if what in ("handle", "both"):
+                        ev.append(["hg", t1, k])
+                    if what in ("write", "both"):
+                        ev.append(["wp", 0, 0, k])
+                    ev += [["a", 0, sg.wire(fr0).hex()], ["p"]]          # the server is now suspended in t1
+                    if meanwhile in ("connect", "all"):
+                        ev += [["n", 3], ["a", 3, sg.wire(fr3).hex()]]
+                    if meanwhile in ("call", "all"):
+                        ev += [["a", 2, sg.wire(fr2).hex()]]
+                    if meanwhile in ("item", "all"):
+                        ev += [["si", 1, 77, 1]]
+                    ev += [["p"]] * (2 * k + 2) + [["si", 1, 78, 2], ["se", 1], ["a", 2, sg.wire(fr2[:1]).hex()]] + [["p"]] * 3
+                    cases.append({"script": ev, "hyp": [0, 1, 2] + ([3] if meanwhile in ("connect", "all") else []),
+                                  "tag": "suspended_handle_or_write", "spec_only": True,
+                                  "info": {"k": k, "what": what, "meanwhile": meanwhile}})
     # (w) one connection's writes fail (at every position) while the others have calls pending / pipelined:
     #     the others are answered as if nothing had happened
     for k in range(0, 4):
